@@ -142,8 +142,14 @@ class C18(Prop):
     rule = ("PARTIAL EVIDENCE. convolve: signals of length m..40 (dyadic values, incl. constant signals), kernels of every "
             "length 1..9 (odd and even; sum-to-one and arbitrary signed), compared exactly with the Lean mechanism and with the "
             "Lean specification (length, interior = ordinary convolution, constants reproduced). deconvolve: full "
-            "convolutions of non-zero signals with first-tap-dominant kernels (|p0| >= 1.5 sum|rest|), modes valid/same, "
-            "tolerance 1e-8. DTYPE CLASS (convolve:dtype / deconv:dtype, ~10 % + ~14 % of the generated cases plus 162 targeted): "
+            "convolutions of signals of length m..40 (the shortest ones n = m, m+1, m+2 included) with first-tap-dominant "
+            "kernels (|p0| >= 1.5 sum|rest|), modes valid/same, tolerance 1e-8; ~45 % of the signals carry exactly zero "
+            "samples (deconv:zero:*: leading, trailing, interior, runs, all-zero, a single non-zero sample, zeros in the two "
+            "dropped trailing samples). MODEL-ONLY CLASSES, outside the property, counted as hypothesis_excluded: signals "
+            "shorter than the kernel (deconv:n<m) and arbitrary input arrays that are not full convolutions, down to one "
+            "sample (deconv-raw:*): the length always (Python's slice with a negative stop: r - (len psf + 1 - len c) of the "
+            "r = next power of two coefficients), the values when the driver finds that the quotient terminates; kernel "
+            "generators of size 1 (linspace(a, b, 1) = [a]). DTYPE CLASS (convolve:dtype / deconv:dtype, ~10 % + ~14 % of the generated cases plus 162 targeted): "
             "signal and kernel held in int32 / int64 / uint8 (non-negative) / float32 / float64 containers in every "
             "combination; convolve in pad mode against mechanism and specification and in the numpy modes full / valid / same "
             "against the Lean convolution, all exact; deconvolve (valid and same) applied to the full convolution that pewlib "
@@ -151,8 +157,9 @@ class C18(Prop):
             "samples compared with the original at 1e-8 (1e-4 when a float32 array takes part: numpy transforms it in single "
             "precision). Kernel generators: each of the 9 generators over its documented parameter domain with the axis "
             "inside the density's support (sizes 2..64, beta shapes >= 1 with >= 3 points, integer super-Gaussian powers, "
-            "scales, shifts): size, axis (vs Lean linspace), finite, non-negative, |sum-1| <= 1e-9; triangular also value by "
-            "value against the Lean model. BOUNDARY CLASS (kernel:boundary:*, ~14 % of the generated cases plus 170 targeted): "
+            "scales, shifts): size, axis (vs Lean linspace), finite, non-negative, |sum-1| <= 1e-9; every generator also "
+            "weight by weight against the Lean model (triangular exactly over Rat; the other eight with the model's "
+            "opaque exp / log / power / sqrt(2 pi) evaluated by the driver to 40 digits, |difference| <= 1e-8). BOUNDARY CLASS (kernel:boundary:*, ~14 % of the generated cases plus 170 targeted): "
             "parameters ON the limits of the documented domains with the density still finite on the axis - triangular with "
             "a == 0 or b == 0, support end points and the mode 0 exactly on the axis (odd sizes, shift 0 or whole steps), beta "
             "with a shape exactly 1 on axes touching 0 and 1, exponential on an axis that starts or ends at exactly 0, "
@@ -162,27 +169,37 @@ class C18(Prop):
             "validated numerically against math.erf (abs 5e-4, all reals incl. negative, tiny, huge), an inverse error "
             "function derived from statistics.NormalDist().inv_cdf (rel 6e-3 on (-1,1): |x| from 1e-99, 1-|x| down to one "
             "ulp) and math.gamma (rel 3e-7, 1e-9..30, integers and their float neighbours); erf and gamma additionally "
-            "against the exact Lean evaluation of the approximation as coded; oddness checked bit-exactly. "
+            "against the exact Lean evaluation of the approximation as coded; erfinv against erfinvWith (the code's structure "
+            "around pi, log1p, sqrt: math.pi, math.log1p's value, a 30-digit rational square root; rel 1e-10); oddness "
+            "checked bit-exactly. "
             "non-trivial = every case; distinct by canonical case hash")
-    trusted = ["np.pad(mode='edge'), np.convolve(mode='valid'), np.linspace, np.trim_zeros as documented; "
+    trusted = ["np.pad(mode='edge'), np.convolve(mode='valid'), np.linspace, np.stack, Python slicing as documented; "
                "irfft(rfft(c, r)/rfft(psf, r), r) equals the power-series quotient when the quotient has fewer than r "
-               "coefficients and the spectrum of psf has no zero",
+               "coefficients (decided by the driver for every case: quotientTerminates) and the spectrum of psf has no zero "
+               "(first-tap-dominant kernels)",
+               "the driver's 40-digit exp / log / power and 30-digit sqrt (PewDriver/C18.lean: Taylor series in fixed point) "
+               "are accurate to far better than the comparison tolerances; they are NOT part of any theorem (the theorems "
+               "quantify over the special functions)",
                "math.erf, math.gamma and statistics.NormalDist().inv_cdf are accurate to far better than the tolerances"]
     assumptions = ["VALIDATED, NOT PROVED: accuracy of the erf (5e-4 abs), erfinv (6e-3 rel) and gamma (3e-7 rel) approximations "
                    "against the true functions - checked on the dense grids and random arguments of this run only; Mathlib has no "
                    "erf and no verified bounds for these approximations",
-                   "VALIDATED, NOT PROVED: finiteness, non-negativity and unit sum of the exp/log/power kernel generators - "
-                   "checked numerically on generated parameters; proved only: normalisation by a positive sum of non-negative "
-                   "finite values gives weights in [0,1] that sum to one (normalise_sums_to_one), linspace (linspace_spec)",
-                   "erfinv itself (log1p, sqrt, pi) is not modelled; only its shape sign(x)*g(x*x) (erfinv_odd)",
+                   "kernel generators: PROVED in exact real arithmetic (triangular completely over Rat; the other eight for every "
+                   "exp > 0, positive power of a positive base, 0**y >= 0, sqrt(2 pi) > 0 - Special.Sound, discharged for the real "
+                   "functions by realSpecial_sound): size, axis, weights in [0,1], unit sum over the documented parameter domains. "
+                   "VALIDATED, NOT PROVED: that the FLOAT evaluation stays finite and non-negative (exp underflowing to 0 on the "
+                   "whole axis, overflow of a power) - checked numerically on generated parameters",
+                   "erfinv is modelled as coded around pi, log1p and sqrt (erfinvWith; odd for every choice of them: erfinv_odd); "
+                   "its accuracy is validated only",
                    "kernel parameter domain: the sampled axis lies inside the support of the density (beta: [0,1]; exponential, "
                    "inverse gamma, log-Laplace, log-normal: x > 0, shift >= 1e-6) and at least one axis point carries density "
                    "above the underflow range; outside that domain (e.g. beta with scale 2) the generators return NaN/negative "
                    "weights and the property's 'density finite on that axis' excludes them",
                    "known finding C18-erfinv-underflow: erfinv(x) = 0 for 0 < |x| < 1e-160; the grid stops at 1e-99, one targeted "
                    "case exercises it and is routed through known()",
-                   "deconvolve is checked on signals without zero samples (np.trim_zeros would otherwise shorten the exact result) "
-                   "and first-tap-dominant kernels ('well-conditioned'); evaluate counts anything else as undetermined",
+                   "deconvolve is checked on first-tap-dominant kernels ('well-conditioned'; |p0| >= 1.25 sum|rest| inside "
+                   "evaluate); evaluate counts any other kernel as undetermined. Zero samples are ordinary samples since /repo "
+                   "5e4648b (no np.trim_zeros)",
                    "dtype class: every sample representable in its container and every partial sum of the convolution exact in "
                    "numpy's result dtype (no integer wrap-around - uint8 signals/kernels are kept small -, no float32 rounding); "
                    "evaluate recomputes this bound for any case and counts a case outside it as undetermined",
